@@ -10,21 +10,7 @@ verus! {
 //#include ../_shared/attribution.inc.rs
 
 // ---------------------------------------------------------------- specification vocabulary
-/// The line partition of a text: contiguous, starts at 0, ends at len, every line non-empty,
-/// every bound on a character boundary.  This is what LineBoundaries::new is ASSUMED to return
-/// (its body uses str::match_indices, which Verus cannot verify).
-pub open spec fn partition_wf(rs: Seq<(usize, usize)>, bytes: Seq<u8>) -> bool {
-    &&& (bytes.len() == 0 <==> rs.len() == 0)
-    &&& rs.len() > 0 ==> rs[0].0 == 0 && rs[rs.len() - 1].1 == bytes.len()
-    &&& forall|i: int| 0 <= i < rs.len() ==> (#[trigger] rs[i]).0 < rs[i].1 && rs[i].1 <= bytes.len()
-    &&& forall|i: int| 0 <= i < rs.len() - 1 ==> (#[trigger] rs[i]).1 == rs[i + 1].0
-    &&& forall|i: int| 0 <= i < rs.len() ==> is_char_boundary(bytes, (#[trigger] rs[i]).0 as int) && is_char_boundary(bytes, rs[i].1 as int)
-}
-/// uninterpreted: the table LineBoundaries::new computes for a text
-pub uninterp spec fn line_table(bytes: Seq<u8>) -> Seq<(usize, usize)>;
-
-pub open spec fn line_valid(n: u32, count: int) -> bool { 1 <= n && n as int <= count }
-
+//#include ../_shared/line_boundaries.inc.rs
 /// What line_attributions_to_attributions must return, as a function of the line table.
 pub open spec fn la2a_spec(la: Seq<LineAttribution>, table: Seq<(usize, usize)>, ts: u128) -> Seq<(usize, usize, Seq<char>, u128)>
     decreases la.len()
@@ -83,59 +69,6 @@ impl LineAttribution {
             end_line,
             author_id,
             overrode,
-        }
-    }
-//#end
-}
-//#item file=src/authorship/attribution_tracker.rs kind=struct name=LineBoundaries
-struct LineBoundaries {
-    line_ranges: Vec<(usize, usize)>,
-}
-//#end
-impl LineBoundaries {
-//#item file=src/authorship/attribution_tracker.rs kind=fn name=new impl="LineBoundaries" body=opaque
-    //@ #[verifier::external_body]
-    fn new(content: &str) -> (r_: Self)
-    //@     ensures r_.line_ranges@ == line_table(content.spec_bytes()), partition_wf(r_.line_ranges@, content.spec_bytes()),
-    {
-        let mut line_ranges = Vec::new();
-        let mut start = 0;
-
-        for (idx, _) in content.match_indices('\n') {
-            // Line from start to idx (inclusive of newline)
-            line_ranges.push((start, idx + 1));
-            start = idx + 1;
-        }
-
-        // Handle last line if it doesn't end with newline
-        if start < content.len() {
-            line_ranges.push((start, content.len()));
-        } else if start == content.len() && content.is_empty() {
-            // Empty file - no lines
-        } else if start == content.len() && !content.is_empty() {
-            // File ends with newline, last line is already added
-        }
-
-        LineBoundaries { line_ranges }
-    }
-//#end
-//#item file=src/authorship/attribution_tracker.rs kind=fn name=line_count impl="LineBoundaries"
-    fn line_count(&self) -> (r_: u32)
-    //@     ensures self.line_ranges@.len() <= u32::MAX ==> r_ as int == self.line_ranges@.len(),
-    {
-        self.line_ranges.len() as u32
-    }
-//#end
-//#item file=src/authorship/attribution_tracker.rs kind=fn name=get_line_range impl="LineBoundaries"
-    fn get_line_range(&self, line_num: u32) -> (r_: Option<(usize, usize)>)
-    //@     ensures
-    //@         r_ is Some <==> line_valid(line_num, self.line_ranges@.len() as int),
-    //@         r_ is Some ==> r_.unwrap() == self.line_ranges@[line_num - 1],
-    {
-        if line_num < 1 || line_num as usize > self.line_ranges.len() {
-            None
-        } else {
-            Some(self.line_ranges[line_num as usize - 1])
         }
     }
 //#end
